@@ -127,6 +127,8 @@ def run(ctx):
     races = race_reports(racelog)
     for sig, txt in races:
         ctx.violation(sig, "Go race detector report inside polyform", {"family": "paramserver", "race": txt})
+    if ctx.tier == "thorough":
+        selftest(ctx, vh, cases)
     ctx.extra["stress_cases"] = len(st)
     ctx.extra["race_reports_in_polyform"] = len(races)
     ctx.nontrivial = len({json.dumps([c["progs"], c["sched"]], sort_keys=True) for c in cases + st
@@ -139,6 +141,27 @@ def run(ctx):
     ctx.assumptions += ["data-race clause decided by the Go race detector on the executed schedules (auxiliary observer, not TLA+)",
                         "invoke/response order taken from one atomic counter in the client goroutines",
                         "a client that does not reach its next gate within 15 ms is treated as blocked by the scheduler (affects only which schedules are realised, never the verdict)"]
+
+
+def selftest(ctx, vh, cases):
+    """Corrupt one logged artifact of an accepted history; TLC must find no linearization for it."""
+    pick = [c for c in cases if any(o["op"] == "art" for p in c["progs"] for o in p)][:3]
+    d = ctx.scratch("selftest")
+    cp = os.path.join(d, "cases.ndjson")
+    core.write_ndjson(cp, pick)
+    tp = os.path.join(d, "trace.ndjson")
+    core.run_vh(vh, ["ps-exec", "-in", cp, "-out", tp])
+    rows = core.read_ndjson(tp)
+    k = [i for i, r in enumerate(rows) if r["k"] == "resp" and r["op"] == "art" and r["h"] == 1]
+    if not k:
+        raise core.Infra("self-test: no artifact response in history 1")
+    rows[k[0]]["res"] = rows[k[0]]["res"].replace(":", ":9", 1) + "!"
+    core.write_ndjson(tp, rows)
+    r = core.run_tlc(os.path.join(d, "v"), "TraceParamServer", "TraceParamServer.cfg", files=[(tp, "trace.ndjson")], workers=1, timeout=600)
+    bad = sorted(v["h"] for v in r.values if isinstance(v, dict) and "bad" in v)
+    if bad != [2]:
+        raise core.Infra("self-test: corrupted artifact should make exactly history 2 non-linearizable, got %s" % bad)
+    ctx.extra["selftest_corruption_rejected"] = True
 
 
 def report(ctx, cases, bad):
